@@ -561,7 +561,97 @@ func discontiguousRuns(w *h.W, fam string) {
 	}
 }
 
+// F9: the database GROWS (or is replaced) BETWEEN calls: a predicate of n1 clauses whose first head arguments are
+// of every kind is loaded and called with every kind of first argument, then gets n2 more clauses - by a second
+// text behind the same multifile/1 declaration, by a second text that replaces it (either side lacking the
+// declaration), by assertz/1, by asserta/1, or loses its first clauses by retract/1 - and is called again, and once
+// more after a third change. Whatever a call leaves behind for later calls (an index, a cache of the clause list, a
+// compiled dispatch) must not be observable: the answers after the change are those of SLD resolution over the
+// database as it then stands, for every size of the predicate before and after.
+func c01F9(w *h.W) {
+	keys := []string{"a", "\"ab\"", "[a, b]", "f(x)", "1", "k", "X", "b", "[a|T]", "2.0", "h", "[]", "g(1)", "f(Y)", "'日'", "[97]", "2", "g(\"ab\")", "a", "m", "f(x)", "3"}
+	calls := []string{
+		"c(a, I)", "c(b, I)", "c(K, I)", "c(k, I)", "c(h, I)", "c(m, I)", "c(\"ab\", I)", "c([a, b], I)", "c([a|_], I)", "c(f(Z), I)", "c(f(x), I)", "c(g(Z), I)",
+		"c(1, I)", "c(2, I)", "c(3, I)", "c(2.0, I)", "c([], I)", "c('日', I)", "c([97], I)", "c(g([a, b]), I)", "K = k, c(K, I)", "d(k, I)", "d(K, I)", "d(a, I)", "e(I)",
+	}
+	cl := func(i int) T { return rd(fmt.Sprintf("c(%s, %d)", keys[i%len(keys)], i)) }
+	rng := func(from, to int) []T {
+		var out []T
+		for i := from; i < to; i++ {
+			out = append(out, cl(i))
+		}
+		return out
+	}
+	ask := func(pc *h.ProgCase) {
+		for _, q := range calls {
+			st := h.Query(rd(q), 60)
+			st.Vars = []string{"I"}
+			pc.Steps = append(pc.Steps, st)
+		}
+	}
+	mf := rd(":- multifile(c/2)")
+	dyn := rd(":- dynamic(c/2)")
+	rest := []T{rd("d(K, I) :- c(K, I)"), rd("e(I) :- c(k, I) ; c(K, I), K == h")}
+	with := func(first T, cs []T) []T { return append([]T{first}, cs...) }
+	for n1 := 1; n1 <= w.Pick(14, 30); n1++ {
+		for _, n2 := range []int{1, 2, 9} {
+			for _, mode := range []string{"multifile", "multifile-dynamic", "replace-mf-plain", "replace-plain-mf", "replace-plain", "assertz", "asserta", "retract"} {
+				if !w.Mine() {
+					continue
+				}
+				pc := &h.ProgCase{DQ: "chars", Steps: []h.ProgStep{h.Consult(rest...)}}
+				grow := func(from, to int) {
+					switch mode {
+					case "multifile":
+						pc.Steps = append(pc.Steps, h.Consult(with(mf, rng(from, to))...))
+					case "multifile-dynamic":
+						pc.Steps = append(pc.Steps, h.Consult(append([]T{mf, dyn}, rng(from, to)...)...))
+					case "replace-mf-plain":
+						if from == 0 {
+							pc.Steps = append(pc.Steps, h.Consult(with(mf, rng(from, to))...))
+						} else {
+							pc.Steps = append(pc.Steps, h.Consult(rng(from, to)...))
+						}
+					case "replace-plain-mf":
+						if from == 0 {
+							pc.Steps = append(pc.Steps, h.Consult(rng(from, to)...))
+						} else {
+							pc.Steps = append(pc.Steps, h.Consult(with(mf, rng(from, to))...))
+						}
+					case "replace-plain":
+						pc.Steps = append(pc.Steps, h.Consult(rng(from, to)...))
+					case "assertz", "asserta", "retract":
+						if from == 0 {
+							pc.Steps = append(pc.Steps, h.Consult(with(dyn, rng(from, to))...))
+							return
+						}
+						for i := from; i < to; i++ {
+							switch mode {
+							case "assertz":
+								pc.Steps = append(pc.Steps, h.Query(Cm("assertz", cl(i)), 2))
+							case "asserta":
+								pc.Steps = append(pc.Steps, h.Query(Cm("asserta", cl(i)), 2))
+							default:
+								// the first clause goes, and one comes in at the end
+								pc.Steps = append(pc.Steps, h.Query(rd("retract(c(_, _))"), 1), h.Query(Cm("assertz", cl(i)), 2))
+							}
+						}
+					}
+				}
+				grow(0, n1)
+				ask(pc)
+				grow(n1, n1+n2)
+				ask(pc)
+				grow(n1+n2, n1+n2+1)
+				ask(pc)
+				runProgCase(w, "F9-"+mode, pc, n1+n2)
+			}
+		}
+	}
+}
+
 func c01Work(w *h.W) {
+	c01F9(w)
 	c01F8(w)
 	c01F7(w)
 	c01F6(w)
@@ -575,7 +665,7 @@ func c01Work(w *h.W) {
 func init() {
 	h.Register(&h.Check{
 		ID: "C01",
-		Rule: "bounded-exhaustive program enumeration: F1 all clause sequences of length <= K over a 21-clause menu for p/1, q/1 (facts, rules, direct and mutual recursion, nested disjunction, call/N, lists) x 7 queries; F2 all head terms of depth <= 2 over {a,X,Y,[],f/1,g/2,'.'/2} x all call arguments of depth <= 1 and vice versa, all bodies building such a term, all pairs of depth-1 heads; F3 all clause bodies of <= L items over 17 goal shapes (call/N, nested ;/, , closures) as clause, top-level disjunct and query, and every call/N split of an 8-ary goal; F4 string literals in heads vs list calls under each double_quotes flag; F5 every construction of a list from nested partial lists against head list patterns; F6 sweep of the head size 0..34 (70) against 7 top-level disjunctive bodies, in clauses and through call/1 with as many extra free variables; F7 sweep of the number of clauses 1..24 (40) of a predicate whose first head arguments are of every kind (atoms, numbers, strings, lists, compounds, variables, non-ASCII), loaded and asserted, called with 29 first arguments in every representation; F8 predicates whose clauses stand in two or three runs (discontiguous/1) of every length 1..17 (34) with 1..3 clauses of other predicates between them. Non-trivial = the reference produces at least one answer or an error; distinct = distinct program+queries text.",
+		Rule: "bounded-exhaustive program enumeration: F1 all clause sequences of length <= K over a 21-clause menu for p/1, q/1 (facts, rules, direct and mutual recursion, nested disjunction, call/N, lists) x 7 queries; F2 all head terms of depth <= 2 over {a,X,Y,[],f/1,g/2,'.'/2} x all call arguments of depth <= 1 and vice versa, all bodies building such a term, all pairs of depth-1 heads; F3 all clause bodies of <= L items over 17 goal shapes (call/N, nested ;/, , closures) as clause, top-level disjunct and query, and every call/N split of an 8-ary goal; F4 string literals in heads vs list calls under each double_quotes flag; F5 every construction of a list from nested partial lists against head list patterns; F6 sweep of the head size 0..34 (70) against 7 top-level disjunctive bodies, in clauses and through call/1 with as many extra free variables; F7 sweep of the number of clauses 1..24 (40) of a predicate whose first head arguments are of every kind (atoms, numbers, strings, lists, compounds, variables, non-ASCII), loaded and asserted, called with 29 first arguments in every representation; F8 predicates whose clauses stand in two or three runs (discontiguous/1) of every length 1..17 (34) with 1..3 clauses of other predicates between them; F9 database growth BETWEEN calls: a predicate of 1..14 (30) clauses with first head arguments of every kind, called with 25 goals (bound and unbound first arguments, through rules and a disjunction), then given 1, 2 or 9 more clauses by a second multifile text (also dynamic), replaced by a second text (three ways of lacking the declaration), grown by assertz/1 or asserta/1, or shifted by retract/1 + assertz/1, called again, changed once more and called again. Non-trivial = the reference produces at least one answer or an error; distinct = distinct program+queries text.",
 		Explanation: "state = one generated program (loaded into a fresh real interpreter); transition = one query run to exhaustion (or 8..40 answers) on the real interpreter whose full answer sequence, terminal status, error term and output are compared with the reference machine; traces_validated = programs whose every query was decided (reference within its step budget)",
 		Assumptions: []string{
 			"reference: ref/solve (goal-stack / choice-point machine with a destructive trail, ISO 13211-1 semantics, self-checked against the ISO examples for cut, catch/throw, all-solutions and database predicates)",
